@@ -24,11 +24,18 @@ models/router_walk.py) and abstains on converter inputs whose meaning is not
 beyond dispute.  Probe paths never start with an empty segment (how leading
 slashes are stripped is not part of the statement).
 
-Known-defect triggers (quote / backslash in a literal; a `path` converter
-rejected below freshly created nodes) are generated in 'open' runs only; three
-runs in eight are 'strict': triggers excluded, every oracle at full strength.
-All verdict signatures carry `mode` plus the attributed cause, found by
-counterfactual re-execution (never by guessing).
+Known-defect triggers are generated in 'open' runs only (a `path` converter
+rejected below freshly created nodes: 5 runs in 8; quote / backslash in literal
+text: 1 of those 5); three runs in eight are 'strict': triggers excluded, every
+oracle at full strength.  All verdict signatures carry `mode` plus the cause,
+which is established by counterfactual re-execution, never guessed:
+  cause    minimal set of rejected add_routes that, replayed alone into a clean
+           router, reproduces what the SUT shows ('path_rejected_below_new_nodes'
+           / 'rejected_add_route' / 'none' = compile-find interleaving matters)
+  trigger  for anomalies a clean router shows too: gone once quote/backslash in
+           literal text is replaced by letters ('source_literal' / 'regex_literal')
+Only the add_route DECISION (accepted / UnacceptableRouteError / other error)
+is compared, not which check refused the template.
 """
 import json
 import re
@@ -127,7 +134,6 @@ class St(object):
         self.acc_segs = []            # [[raw segment]]
         self.att_segs = []            # accepted and rejected
         self.rejected = []            # [dict]
-        self.history = []             # [(template, resource)] every add_route, in order
         self.tree = Tree()
         self.model_ok = True
         self.nodes = {}               # raw -> Node | None (for representatives)
@@ -379,7 +385,7 @@ def same(a, b):
     return a[1] is b[1] and a[2] == b[2] and a[3] == b[3] and a[4] == b[4]
 
 
-def build(accepted, rejected=(), xf=None):
+def build(accepted, rejected=()):
     """Router fed the accepted templates (plain add_route, in order) plus the
     given rejected add_routes at the places where they happened.  -> router, or
     None if one of the accepted templates is refused."""
@@ -387,10 +393,10 @@ def build(accepted, rejected=(), xf=None):
     for i in range(len(accepted) + 1):
         for rj in rejected:
             if rj['at'] == i:
-                try_add(r, xf(rj['t']) if xf else rj['t'], rj['res'], False)
+                try_add(r, rj['t'], rj['res'], False)
         if i < len(accepted):
             t, res = accepted[i]
-            if try_add(r, xf(t) if xf else t, res, False)[0] != 'ok':
+            if try_add(r, t, res, False)[0] != 'ok':
                 return None
     return r
 
@@ -628,7 +634,6 @@ def do_add(st, ch, segs, intent, pos, index):
         st.inc_dirty = False
     out = try_add(st.sut, t, res, comp)
     ref = try_add(st.inc, t, res, comp) if st.inc is not None else out
-    st.history.append((t, res))
     st.att_segs.append(raws)
     for raw in raws:
         n = st.node(raw)
